@@ -70,6 +70,7 @@ type Lattice struct {
 type Case struct {
 	K     string          `json:"k"`
 	Den   int             `json:"den"`
+	E2    int             `json:"e2"` // binary magnitude: every real parameter and coordinate is integer / den * 2^e2
 	Shape Shape           `json:"shape"`
 	Raw   json.RawMessage `json:"-"`
 	Lat   Lattice         `json:"lat"`
@@ -80,6 +81,7 @@ type line struct {
 	Id    int             `json:"id"`
 	Blk   int             `json:"blk"`
 	Den   int             `json:"den"`
+	E2    int             `json:"e2"`
 	Q     int             `json:"q"`
 	Shape json.RawMessage `json:"shape"`
 	Pts   [][]int         `json:"pts"` // x, y, z, F, sign
@@ -192,9 +194,11 @@ func sign(x float64) int {
 }
 
 func evalLine(c Case, raw json.RawMessage, id, blk int, pts [][]int) (ln line) {
-	ln = line{K: "sdf", Id: id, Blk: blk, Den: c.Den, Shape: raw, Pts: [][]int{}, Ops: [][]int{}}
+	ln = line{K: "sdf", Id: id, Blk: blk, Den: c.Den, E2: c.E2, Shape: raw, Pts: [][]int{}, Ops: [][]int{}}
 	ln.Q = scaleFor(c.Shape, pts)
-	den := float64(c.Den)
+	// one lattice unit is 2^e2 / den (den is 1, 2 or 4: dividing by den * 2^-e2 is exact); values are logged in
+	// lattice units times q, whatever the size of the unit: the judge sees the same integers at every magnitude
+	den := float64(c.Den) * math.Ldexp(1, -c.E2)
 	defer func() {
 		if r := recover(); r != nil { // a panic of the code under test is an observation
 			ln.Nan = len(pts) + 1
